@@ -181,6 +181,7 @@ func main() {
 	}
 	r := seq.New("C07", tier, "exploration")
 	defer r.CrashGuard()
+	defer r.Watch()()
 	child := seq.ShardMode()
 	if child {
 		r.SetShardMode()
